@@ -272,3 +272,90 @@ Proof.
                       destruct r; auto; simpl in F; destruct F as [Fa Fb]; split; [lia|intros C; specialize (Fb C); lia])).
   specialize (P I fuel x l (conj HL (Nat.le_refl _))). rewrite Hr in P. exact P.
 Qed.
+
+(* ---- engine calls ------------------------------------------------------------------------------------------ *)
+
+Theorem start_waits : forall a t f x', start a t f = ROk x' ->
+  s_status (session_ x') = SWaiting -> (1 <= count_waits (session_ x'))%nat.
+Proof.
+  intros a t f x'. unfold start. destruct (get_flow a f) as [fl|]; [|discriminate].
+  intros H Hw. destruct (cuw_cw _ _ _ _ _ (loop_inv_start t f (f_type fl)) H) as [_ K]. specialize (K Hw).
+  unfold cw in K. simpl in K. rewrite count_waits_cwl. lia.
+Qed.
+
+Lemma apply_resume_cw : forall x wi sr r, (cw x <= cw (apply_resume x wi sr r))%nat.
+Proof.
+  intros x wi sr r.
+  assert (Hbase : forall y, cw (with_session (with_session y (fun s => match run_status s wi with
+                                                                   | Some RWaiting => upd_run s wi (run_set_status RActive)
+                                                                   | _ => s end)) (fun s => set_input s None)) = cw y).
+  { intros y. unfold cw; simpl. destruct (run_status (session_ y) wi) as [[]|]; try reflexivity.
+    change (cw (with_session y (fun s => upd_run s wi (run_set_status RActive))) = cw y). apply cw_upd_same. reflexivity. }
+  destruct r; unfold apply_resume; cbv zeta.
+  - eapply Nat.le_trans; [|apply cw_log_event_le]. specialize (Hbase x). unfold cw in *; simpl in *. lia.
+  - rewrite Hbase. apply cw_log_event_le.
+  - rewrite Hbase. eapply Nat.le_trans; [|apply cw_log_event_le]. rewrite cw_upd_same by reflexivity. lia.
+  - rewrite Hbase. apply cw_log_event_le.
+Qed.
+
+Lemma fail_session_cw : forall x wi c, (cw x <= cw (fail_session x wi c))%nat.
+Proof.
+  intros. unfold fail_session. unfold cw at 2. cbn [session_ with_session s_runs set_status set_runs].
+  rewrite cwl_map_same by (intros r; destruct (r_status r); reflexivity). apply cw_fail_run_le.
+Qed.
+
+Theorem resume_waits : forall a s r tmo x',
+  post_inv s -> resume_session a s r tmo = Resumed (ROk x') ->
+  (count_waits s <= count_waits (session_ x'))%nat /\
+  (s_status (session_ x') = SWaiting -> (S (count_waits s) <= count_waits (session_ x'))%nat).
+Proof.
+  intros a s r tmo x' Hpost H. rewrite !count_waits_cwl.
+  change (cwl (s_runs s)) with (cw (resume_x0 s)). change (cwl (s_runs (session_ x'))) with (cw x').
+  destruct (resume_decompose _ _ _ _ _ Hpost H) as [(y & wi & c & E & _ & _ & _ & _ & Hy)|(x2 & l & E & HL & Hs & _ & _ & wi & pos & e & op & _ & _ & _ & Hfre)].
+  - inversion E; subst. split.
+    + eapply Nat.le_trans; [|apply fail_session_cw]. destruct Hy as [->|(pos & ->)]; [unfold cw; simpl; lia|apply apply_resume_cw].
+    + simpl. discriminate.
+  - pose proof (find_resume_exit_cw a (apply_resume (resume_x0 s) wi (Some (wi, pos)) r) wi (is_timeout r) tmo) as Ht.
+    rewrite Hfre in Ht. pose proof (apply_resume_cw (resume_x0 s) wi (Some (wi, pos)) r) as Ha.
+    symmetry in E. destruct (cuw_cw _ _ _ _ _ HL E) as [K1 K2]. split; [lia|intros C; specialize (K2 C); lia].
+Qed.
+
+(* ---- histories: the number of resumes that go through ------------------------------------------------------- *)
+
+(* [history a k s]: s was started and then resumed, all against the asset store a; k counts the resumes
+   that went through, i.e. were neither rejected (those leave the session as it is) nor answered by
+   failing the session for having reached the resume limit *)
+Inductive history (a : assets) : nat -> session -> Prop :=
+| h_start : forall t f x, start a t f = ROk x -> history a 0 (session_ x)
+| h_resume : forall k s r tmo x, history a k s -> resume_session a s r tmo = Resumed (ROk x) ->
+             ~ resume_limit_reached a s -> history a (S k) (session_ x)
+| h_limit : forall k s r tmo x, history a k s -> resume_session a s r tmo = Resumed (ROk x) ->
+            resume_limit_reached a s -> history a k (session_ x).
+
+Lemma history_reachable : forall a k s, history a k s -> reachable s.
+Proof. induction 1; eauto using reachable. Qed.
+
+Lemma history_waits : forall a k s, history a k s -> s_status s = SWaiting -> (k + 1 <= count_waits s)%nat.
+Proof.
+  induction 1; intros Hw.
+  - pose proof (start_waits _ _ _ _ H Hw). lia.
+  - assert (Hs : s_status s = SWaiting).
+    { destruct (s_status s) eqn:E; auto; unfold resume_session in H0; rewrite E in H0; discriminate. }
+    destruct (resume_waits _ _ _ _ _ (reachable_post _ (history_reachable _ _ _ H)) H0) as [_ K].
+    specialize (K Hw). specialize (IHhistory Hs). lia.
+  - exfalso. destruct (waiting_run s) as [wi|] eqn:Ew.
+    + assert (Hs : s_status s = SWaiting).
+      { destruct (s_status s) eqn:E; auto; unfold resume_session in H0; rewrite E in H0; discriminate. }
+      destruct (impossible_fails a s r tmo wi Hs Ew (or_intror (or_introl H1))) as (x0 & E0 & F0).
+      rewrite H0 in E0. inversion E0; subst. destruct F0 as [F0 _]. congruence.
+    + unfold resume_session in H0. destruct (sstatus_eqb (s_status s) SWaiting); simpl in H0; [rewrite Ew in H0|]; discriminate.
+Qed.
+
+(* a session cannot be resumed more often than the configured maximum *)
+Theorem resume_bound : forall a k s, history a k s -> (Z.of_nat k <= Z.max 0 (max_resumes (a_opts a)))%Z.
+Proof.
+  induction 1; try lia.
+  assert (Hs : s_status s = SWaiting).
+  { destruct (s_status s) eqn:E; auto; unfold resume_session in H0; rewrite E in H0; discriminate. }
+  pose proof (history_waits _ _ _ H Hs) as Hk. unfold resume_limit_reached in H1. lia.
+Qed.
